@@ -163,6 +163,11 @@ class C18(Check):
                 if f.random() < 0.5:
                     rates[x] = f.random() * 0.3
         n = k.choice([1, 2, 3, 5, 8, 13, 21, 34, 55, 89, 150])
+        if k.random() < 0.012:
+            # scale runs: a network of hundreds of repeaters talking to one pair of handlers, and a history long enough for many of them
+            npeers = k.choice([130, 270])
+            ips = [f"10.2.{i // 250}.{i % 250 + 1}" for i in range(npeers)]
+            n = k.choice([500, 900])
         follow = k.choice([0.5, 0.8, 0.95])  # how faithfully peers follow the real handshake
         template = k.getrandbits(16) if k.random() < 0.5 else None  # all peers answer from one template (cloned repeaters)
         p_rdac = k.choice([0.3, 0.5, 0.8])
